@@ -151,8 +151,9 @@ class Simulation(object):
         Initialises the routing objects.
         """
         routers_dict = {}
+        memo = {}  # routing objects shared between customer classes stay shared within this simulation
         for clss in self.network.customer_class_names:
-            routers_dict[clss] = copy.deepcopy(self.network.customer_classes[clss].routing)
+            routers_dict[clss] = copy.deepcopy(self.network.customer_classes[clss].routing, memo)
             routers_dict[clss].initialise(self)
         return routers_dict
 
